@@ -380,3 +380,54 @@ fn d8_code_length_alphabet_without_repeat_codes() {
         }
     }
 }
+
+/// D12: more than 65535 occurrences of one symbol in a dynamic block: the per-block frequency counters are u16 and the
+/// overflow-checked `+= 1` panics in builds with overflow checks (the default test / debug profile); release builds wrap.
+#[test]
+fn d12_more_than_65535_equal_literals_in_one_block() {
+    let mut b = Bits::new();
+    b.put(1, 1); // BFINAL
+    b.put(2, 2); // dynamic
+    b.put(0, 5); // HLIT: 257 codes
+    b.put(1, 5); // HDIST: 2 codes
+    b.put(18 - 4, 4); // HCLEN: 18 entries: 16 17 18 0 8 7 9 6 10 5 11 4 12 3 13 2 14 1
+    // code-length alphabet: 18 -> 1 bit, 0 and 1 -> 2 bits
+    let order = [16, 17, 18, 0, 8, 7, 9, 6, 10, 5, 11, 4, 12, 3, 13, 2, 14, 1];
+    for s in order {
+        b.put(match s { 18 => 1, 0 | 1 => 2, _ => 0 }, 3);
+    }
+    // canonical codes: 18 -> "0", 0 -> "10", 1 -> "11"
+    fn zeros(b: &mut Bits, mut n: u32) {
+        while n >= 11 {
+            let k = n.min(138);
+            b.code(0, 1);
+            b.put(k - 11, 7);
+            n -= k;
+        }
+        for _ in 0..n {
+            b.code(2, 2);
+        }
+    }
+    zeros(&mut b, 97); // symbols 0..=96 unused
+    b.code(3, 2); // 'a' (97): length 1
+    zeros(&mut b, 158); // 98..=255 unused
+    b.code(3, 2); // end of block (256): length 1
+    b.code(3, 2); // two distance codes of one bit
+    b.code(3, 2);
+    let n = 70000usize;
+    for _ in 0..n {
+        b.code(0, 1); // 'a'
+    }
+    b.code(1, 1); // end of block
+    let d = b.finish();
+    for verify in [true, false] {
+        let dd = d.clone();
+        let r = catch_unwind(move || decompress_deflate_stream(&dd, verify, 0));
+        assert!(r.is_ok(), "decompress_deflate_stream panicked (verify={})", verify);
+        if let Ok(Ok(res)) = r {
+            assert_eq!(res.plain_text.len(), n);
+            let back = recompress_deflate_stream(&res.plain_text, &res.prediction_corrections).unwrap();
+            assert_eq!(&back[..], &d[..res.compressed_size]);
+        }
+    }
+}
